@@ -207,6 +207,17 @@ Clauses(lines, inst, fname) ==
      icon   |-> IconInsideSnap(out),
      tagged |-> Tagged(out, inst)]
 
+(* Installing: one call of wrappers.EnsureSnapDesktopFiles sanitizes EVERY shipped desktop file of the snaps
+   it is given (deriveDesktopFilesContent keeps all results in memory) and only then writes them
+   (EnsureDirState).  A shipped file is [fname, inst, lines]; the result of the call is a function
+   file index -> installed content, and each installed content is the sanitizer's output for THAT file alone:
+   the files of one call do not influence each other.  The statement is about what is installed, so the four
+   clauses are demanded of every Install(files)[i].  (State machine: DesktopInstall.tla.) *)
+Install(files) == [i \in 1..Len(files) |-> Sanitize(files[i].lines, files[i].inst, files[i].fname)]
+
+InstalledClauses(files) ==
+    [i \in 1..Len(files) |-> Clauses(files[i].lines, files[i].inst, files[i].fname)]
+
 -----------------------------------------------------------------------------
 (* Enumeration of every file of at most MaxLen lines x instance key? x file name, as the scanner loop of
    sanitizeDesktopFile: one step consumes one line and appends what it emits to `out`. *)
